@@ -1,9 +1,9 @@
 SPECIFICATION Spec
 CONSTANTS
-  NH = 3
-  MaxBlocks = 2
-  MaxSteps = 6
-  Layouts <- LayMid
+  NH = 2
+  MaxBlocks = 1
+  MaxSteps = 4
+  Layouts <- LaySmall
   Counts <- HostCounts
   Lens <- HostLens
   NilMiner = TRUE
